@@ -1058,3 +1058,59 @@ func c19r13(rc *core.RC) {
 		rc.Unknown("encoder/query-nodes", token.NoPos, "found %d ToOpcode methods of nodes with a fieldQuery (confirmed: 3)", n)
 	}
 }
+
+// ---- C19.R14 a query is written in the shapes its reader reads ----
+
+// FieldQuery.MarshalJSON writes the text QueryString returns and Build reads back: a name as a string, a named query
+// with members as an object whose value is the array of members, a list as an array. The reader (buildMap) takes the
+// members of an object's value from the array it built for that value (def.Fields): an object value that is not an
+// array loses a level (a nested object keeps only its members, a string contributes nothing). Obligation: every value
+// MarshalJSON hands to Marshal is a string, a slice of queries, or a map whose value type is a slice of queries.
+func c19r14(rc *core.RC) {
+	p := rc.P
+	fd := p.Func("encoder", "FieldQuery.MarshalJSON")
+	if fd == nil || fd.Body == nil {
+		rc.Unknown("encoder.FieldQuery.MarshalJSON", token.NoPos, "method not found")
+		return
+	}
+	info := p.Info(fd)
+	name := p.FuncName(fd)
+	rc.Touch(name)
+	n := 0
+	ast.Inspect(fd.Body, func(m ast.Node) bool {
+		c, ok := m.(*ast.CallExpr)
+		if !ok || len(c.Args) != 1 {
+			return true
+		}
+		// Marshal is a package-level function variable of the encoder package (set by package json)
+		fn := ""
+		switch f := core.Unparen(c.Fun).(type) {
+		case *ast.Ident:
+			fn = f.Name
+		case *ast.SelectorExpr:
+			fn = f.Sel.Name
+		}
+		if fn != "Marshal" {
+			return true
+		}
+		t := info.TypeOf(c.Args[0])
+		if t == nil {
+			return true
+		}
+		n++
+		good := false
+		switch u := t.Underlying().(type) {
+		case *types.Basic:
+			good = u.Info()&types.IsString != 0
+		case *types.Slice:
+			good = true
+		case *types.Map:
+			_, good = u.Elem().Underlying().(*types.Slice)
+		}
+		rc.Check(good, fmt.Sprintf("%s/written-shape#%d %s", name, n, t.String()), c.Pos(), "MarshalJSON writes a value of type %s: the reader of query texts takes the members of an object's value from the array built for it, so the value of a written object has to be an array of members (a single member written without brackets, {\"a\":{\"b\":[…]}}, comes back without the level b)", t.String())
+		return true
+	})
+	if n < 3 {
+		rc.Unknown(name+"/written-shapes", fd.Pos(), "found %d values handed to Marshal (confirmed: 3)", n)
+	}
+}
